@@ -113,6 +113,8 @@ def churn_shard(shard, nshards, seed, tier, exe, nhist):
         env = {"VF_HASH_SEED": str(hseed)}
         # phase 1: ask the library for the hashes of candidate keys under this seed/function
         cands = [("k%d" % i).encode() for i in range(1500)] + [bytes([97 + i % 26, 97 + i // 26 % 26, 48 + i % 10]) for i in range(1500)]
+        # every name length 1..48 (hash functions work on 12-/4-byte blocks with a tail switch; callers' name pointers come at every alignment: the driver rotates it)
+        cands += [bytes(97 + (i * 7 + j) % 26 for j in range(L)) for L in range(1, 49) for i in range(8)]
         cands = list(dict.fromkeys(cands))
         res, cr = core.run_script(exe, [("h", ["HASHFN %d" % hashfn, "HASH " + " ".join("x" + c.hex() for c in cands)])], env=env, tag="c06")
         if cr:
@@ -295,7 +297,7 @@ def run(tier, seed):
     maxlen = 6 if tier == "quick" else 7
     jobs = []
     for size in (1, 2, 3, 4, 5):
-        for hk in (0, 1, 2, 3, 4, 5):
+        for hk in (0, 1, 2, 3, 4, 5, 6):
             nsub = 1 if tier == "quick" else 8
             for sub in range(nsub):
                 jobs.append((size, hk, maxlen, sub, nsub))
@@ -304,15 +306,15 @@ def run(tier, seed):
             for hk in (1, 3, 4):
                 for sub in range(32):
                     jobs.append((size, hk, 8, sub, 32))
-    rd = core.record_dir(PID) if tier == "thorough" else None
     sh = core.parallel(lhenum_job, exe=bdir + "/lhenum", jobs=jobs)
+    chk.absorb(sh)
+    rd = core.record_dir(PID) if tier == "thorough" else None
+    sh = core.parallel(churn_shard, seed=seed, tier=tier, exe=bdir + "/jcdrv", nhist=3840 if tier == "quick" else 16000)
     chk.absorb(sh)
     if rd:
         os.environ.pop("VF_RECORD_DIR", None)
         core.memcheck_recorded(chk, build.build("plain"), rd)
-    sh = core.parallel(churn_shard, seed=seed, tier=tier, exe=bdir + "/jcdrv", nhist=3840 if tier == "quick" else 16000)
-    chk.absorb(sh)
-    chk.extra["enumerated_completely"] = "all sequences of length <= %d over {add,delete,lookup} x 4 keys on lh_table_new(size 1..5) x 4 caller-supplied hash functions" % maxlen
+    chk.extra["enumerated_completely"] = "all sequences of length <= %d over {add,delete,lookup} x 4 keys on lh_table_new(size 1..5) x 7 caller-supplied hash functions (identity, constant, last slot, colliding pairs, three keys + neighbour, adjacent pairs, 64-bit values differing only above bit 31)" % maxlen
     chk.exhaustive = False
     chk.rule = ("(a) small-scope exhaustive: every operation sequence up to the stated length on tiny tables with identity/constant/last-slot/pairwise-colliding hashes, every step checked against an "
                 "ordered-map model (lookups of all keys, length, lh_foreach order+values, head/tail/prev/next chain). (b) churn at json_object level: universes of 3-40 keys incl. empty, 200-byte and "
